@@ -18,7 +18,8 @@ VARIABLE tv
 
 Q0s == { <<1,0,0,0>>, <<1,1,0,0>>, <<1,0,1,0>>, <<1,0,0,1>>, <<1,1,1,1>>, <<1,-1,1,0>>, <<2,1,0,-1>>, <<3,1,2,-2>>,
          <<0,1,0,0>>, <<0,0,1,1>>, <<1,2,2,0>>, <<0,0,0,1>>, <<1,1,-1,-1>>, <<10,1,2,3>>, <<1,0,-1,1>>, <<2,-1,-1,0>>,
-         <<2,0,0,3>>, <<2,0,0,-3>>, <<3,1,0,4>> }        \* headings 100-113 deg away: still inside the 120 deg box
+         <<2,0,0,3>>, <<2,0,0,-3>>, <<3,1,0,4>>,         \* headings 100-113 deg away: still inside the 120 deg box
+         <<2,3,0,0>>, <<3,0,-4,0>>, <<3,3,3,0>>, <<5,-6,2,1>> }   \* TILTED 106-113 deg (body z below the horizon), inside the box
 Biases == { <<0,0,0>>, <<7,-7,3>>, <<-5,2,7>> }                      \* 1/100 rad/s
 Mags   == { <<1,0,1, 1,0,1>>, <<4,3,5, 1,0,1>>, <<1,0,1, 4,3,5>>, <<3,-4,5, 3,4,5>> }   \* decl (c,s,h), incl (c,s,h)
 Rates  == { <<2500, 5000, 20000, 5000>>, <<5000, 10000, 40000, 10000>>, <<2500, 2500, 10000, 5000>>,
@@ -30,7 +31,9 @@ InBox(c) == c.init = 1 \/ Within120(c.q)
 Init == \E q \in Q0s, b \in Biases, init \in {0, 1}, m \in Mags, r \in Rates :
           /\ tv = [q |-> q, b |-> b, init |-> init, mag |-> m, rates |-> r,
                    cell |-> IF q[1] = 0 THEN "pi" ELSE IF ~Within120(q) THEN "far"
-                            ELSE IF q[4] * q[4] > q[1] * q[1] + q[2] * q[2] + q[3] * q[3] THEN "heading90" ELSE "near"]      \* heading > 90 deg off
+                            ELSE IF q[4] * q[4] > q[1] * q[1] + q[2] * q[2] + q[3] * q[3] THEN "heading90"      \* heading > 90 deg off
+                            ELSE IF q[1] * q[1] + q[4] * q[4] < q[2] * q[2] + q[3] * q[3] THEN "tilt90"       \* R33 < 0: tilt > 90 deg
+                            ELSE "near"]
           /\ InBox(tv)
 Next == UNCHANGED tv
 Spec == Init /\ [][Next]_tv
